@@ -65,16 +65,28 @@ def cases(tier, seed):
                "n": int(rng.integers(20, 40)), "off": int(rng.choice([0, 10, 500])), "fh": FHS[int(rng.integers(0, len(FHS)))],
                "ops": [["update", "update", "predict", "refit", "update_predict"][int(rng.integers(0, 5))] for _ in range(int(rng.integers(2, 7)))],
                "dseed": int(rng.integers(0, 2 ** 31))}
+    # an outlier filter (marks points as missing) followed by an imputer as first steps of a pipeline that is ONE member of an ensemble:
+    # the siblings are fitted / updated with the series as it was given
+    OUTLIER_PIPE = ["pipeline", {}, [["hampel", {"window_length": 5, "n_sigma": 1}], ["imputer", {"method": "linear"}]], ["naive", {"strategy": "mean", "window_length": 4}]]
+    FIXED = [["ensemble", {"aggfunc": "mean"}, [OUTLIER_PIPE, ["naive", {"strategy": "mean", "window_length": 6}], ["poly", {"degree": 1}]]],
+             ["ensemble", {"aggfunc": "median"}, [["naive", {"strategy": "last"}], OUTLIER_PIPE, ["naive", {"strategy": "mean"}]]]]
     for i in range(n_ref):
         spec = None
         for _ in range(20):
             spec = zoo.random_spec(rng, depth=3 if i % 3 == 0 else 2, allow_slow=rng.random() < 0.15)
             if zoo.children(spec):
                 break
+        if i % 25 == 7:
+            spec = FIXED[(i // 25) % 2]
         n = int(rng.integers(zoo.min_length(spec) + 10, zoo.min_length(spec) + 36))
-        yield {"kind": "ref", "spec": spec, "n": n, "off": int(rng.choice([0, 1, -40, 13, 10 ** 5])), "fh": FHS[int(rng.integers(0, len(FHS)))],
-               "abs": bool(rng.random() < 0.3), "updates": [[bool(rng.random() < 0.5), int(rng.integers(1, 4))] for _ in range(int(rng.integers(0, 4)))],
-               "series": ["seasonal", "walk"][int(rng.integers(0, 2))], "dseed": int(rng.integers(0, 2 ** 31))}
+        case_ = {"kind": "ref", "spec": spec, "n": n, "off": int(rng.choice([0, 1, -40, 13, 10 ** 5])), "fh": FHS[int(rng.integers(0, len(FHS)))],
+                 "abs": bool(rng.random() < 0.3), "updates": [[bool(rng.random() < 0.5), int(rng.integers(1, 4))] for _ in range(int(rng.integers(0, 4)))],
+                 "series": ["seasonal", "walk"][int(rng.integers(0, 2))], "dseed": int(rng.integers(0, 2 ** 31))}
+        if spec in FIXED:
+            # the outlier filter needs a stretch at least as long as its window: batches of 5-7 observations
+            case_["updates"] = [[u_, 5 + s_] for u_, s_ in case_["updates"]] or [[True, 6]]
+            case_["n"] = max(n, 24)
+        yield case_
 
 
 def _same(a, b, tol=1e-9):
